@@ -406,11 +406,13 @@ pub fn start_of(raw: &RawHist) -> Option<(String, Pos)> {
         setup_position(&mut t).map(|p| ("setup".to_string(), p))
     } else if raw.start_sel < 0xE800 {
         // planted low-mobility positions (boxed-in king plus one movable feature)
+        // (a rejected planting falls back to the direct set-up from the same tape: construction
+        // instead of rejection)
         let mut t = Tape::new(&raw.setup);
-        plant_boxed(&mut t).map(|(p, _)| ("planted".to_string(), p))
+        plant_boxed(&mut t).map(|(p, _)| ("planted".to_string(), p)).or_else(|| setup_position(&mut Tape::new(&raw.setup)).map(|p| ("setup".to_string(), p)))
     } else {
         let mut t = Tape::new(&raw.setup);
-        plant_ep_near_king(&mut t).map(|p| ("planted".to_string(), p))
+        plant_ep_near_king(&mut t).map(|p| ("planted".to_string(), p)).or_else(|| setup_position(&mut Tape::new(&raw.setup)).map(|p| ("setup".to_string(), p)))
     }
 }
 
